@@ -19,9 +19,11 @@ def parse_res(path):
 
 
 for name in sys.argv[1:]:
-    pid, i = name.split('-')
+    parts = name.split('-')
+    pid, i = parts[0], parts[-1]
+    wave2 = len(parts) == 3
     wt = '/tmp/mut-%s' % pid
-    src = os.path.join(wt, '_mut')
+    src = os.path.join(wt, '_mut2' if wave2 else '_mut')
     dst = os.path.join(HERE, 'seeded', name)
     os.makedirs(dst, exist_ok=True)
     # regenerate the patch against the current HEAD
@@ -46,10 +48,24 @@ for name in sys.argv[1:]:
     open(os.path.join(dst, 'notes.md'), 'w').write(notes)
     before = parse_res('/tmp/seedres/%s.txt' % name)
     after = parse_res('/tmp/seedres2/%s.txt' % name)
+    if wave2:
+        # wave 2: /tmp/seedres0 = checks as committed before the wave-2 descriptions were read (8acc78c),
+        # /tmp/seedres = live checks at the time the seed came in, /tmp/seedres2 = after further strengthening
+        live = before
+        old = parse_res('/tmp/seedres0/%s.txt' % name)
+        if old is not None:
+            before = old
+            if after is None and live is not None and live['checks'] != old['checks']:
+                after = live
+        if live and (after or before) and 'not re-run' in (after or before).get('baseline', ''):
+            (after or before)['baseline'] = live['baseline']
+        if live and before and 'not re-run' in before.get('baseline', ''):
+            before['baseline'] = live['baseline']
     prop = pid.upper()
     meta = {
         'property': prop,
-        'origin': 'independent sub-agent given only the property text and a scratch worktree',
+        'origin': 'independent sub-agent given only the property text and a scratch worktree' + (
+            ' (second wave: told which mechanisms the first wave had touched and asked for different ones)' if wave2 else ''),
         'patch_against_repo_head': head,
         'what_it_breaks_and_needs': ' '.join(notes.split())[:900],
         'confirmed': {
